@@ -152,6 +152,7 @@ async fn srv_handler(obs: Obs, origin: &'static str, exec: crate::det::Exec, mut
         });
         return Ok(http::Response::builder()
             .status(101)
+            .header("date", FIXED_DATE)
             .header(http::header::UPGRADE, "test-proto")
             .header(http::header::CONNECTION, "upgrade")
             .body(ChunkBody::new(&[]))
@@ -334,8 +335,31 @@ pub fn run(args: &Args) -> i32 {
     }
     std::panic::set_hook(Box::new(|_| {}));
     let mut run = Run::new("C01", args.tier, "model_checking");
-    let scns = scenarios(thorough);
-    let bound = if thorough { 2 } else { 2 };
+    let mut scns = scenarios(thorough);
+    if let Ok(only) = std::env::var("HDMC_C01_ONLY") {
+        scns.retain(|s| s.name == only);
+        if std::env::var("HDMC_C01_DIVERGE").is_ok() {
+            let pf: Vec<usize> = std::env::var("HDMC_C01_PREFIX").ok().and_then(|s| serde_json::from_str(&s).ok()).unwrap_or_default();
+            let base = run_one(&scns[0], &pf);
+            for k in 0..2000 {
+                let again = run_one(&scns[0], &pf);
+                let a: Vec<(usize, &str)> = base.points.iter().map(|p| (p.menu_len, p.what.as_str())).collect();
+                let b: Vec<(usize, &str)> = again.points.iter().map(|p| (p.menu_len, p.what.as_str())).collect();
+                if a != b {
+                    let i = a.iter().zip(b.iter()).position(|(x, y)| x != y).unwrap_or(a.len().min(b.len()));
+                    println!("run {k} diverges at point {i}: base {:?} vs {:?}", a.get(i), b.get(i));
+                    for j in i.saturating_sub(6)..(i + 3).min(a.len()) {
+                        println!("  {j}: base {:?} | again {:?}", a.get(j), b.get(j));
+                    }
+                    println!("base schedule tail: {:?}", &base.outcome.schedule[base.outcome.schedule.len().saturating_sub(0)..]);
+                    return 0;
+                }
+            }
+            println!("no divergence in 2000 runs of the default schedule");
+            return 0;
+        }
+    }
+    let bound = if thorough { 3 } else { 2 };
     let cap: u64 = if thorough { 3_000_000 } else { 60_000 };
     let results = crate::evidence::par_map(scns.len(), crate::evidence::n_threads(), |i| {
         let scn = &scns[i];
